@@ -189,10 +189,14 @@ def run(ctx):
     # sweep bases are drawn often enough to reach the wanted number of swept layouts
     recs, _ = vcore.run_scenarios(ctx, sets, n, each=make_each(n_sweep), model=False,
                                   families=("ed25519", "rsa", "ecdsa") if thorough else ("ed25519",))
+    # gpg-signed root layouts (honest, edited, signature edited, unsigned, expired, foreign key): a few in every run,
+    # the leaf sweep over them in the thorough tier
+    state["sweeps"] = 0
     if thorough:
-        state["sweeps"] = 0
         g, _ = vcore.run_scenarios(ctx, GPG_SETS, 120, use_gpg=True, each=make_each(6), model=False)
-        recs.extend(g)
+    else:
+        g, _ = vcore.run_scenarios(ctx, [o for o in GPG_SETS if not o.get("sweep")], 16, use_gpg=True, model=False)
+    recs.extend(g)
     model = vcore.run_model(recs)
 
     gaps = 0      # (the gpg other_headers gap of the first model version is closed: Meta.v gpg_verify asks the oracle about signature:other_headers)
